@@ -15,7 +15,7 @@ invariant `Wired` between the pool state and a *ghost log* of what the pool proc
   tracker received (marks, finalization batches with the events of the finality tracker, prunes to
   `first_unpruned_slot`);
 * `Consistent L` — the premise on the history (C01): `Finality.Safe (finOps L)`, no skip certificate for a
-  finalized slot, the only finalized block of slot 0 is genesis;  `Consistent L → ParentReady.SafeRun (prTrace L)`;
+  directly finalized slot, the only finalized block of slot 0 is genesis;  `Consistent L → ParentReady.SafeRun (prTrace L)`;
 * `Wired p L` — `p.fin` is the finality tracker after `finOps L`, `p.pr` the parent-ready tracker after `prTrace L`.
 -/
 namespace AgModel.Pool
